@@ -166,6 +166,7 @@ class ScenarioContainer(TagAndStatusStatement, Replayable):
         super(ScenarioContainer, self).__init__(filename, line, keyword, name, tags)
         self.description = description or []
         self.hook_failed = False
+        self.cleanup_failed = False
         self.run_starttime = 0
         self.run_endtime = 0
         self.run_items = []     # CASE: Rule, Scenario, ScenarioOutline
@@ -179,6 +180,7 @@ class ScenarioContainer(TagAndStatusStatement, Replayable):
         """Reset to clean state before a test run."""
         super(ScenarioContainer, self).reset()
         self.hook_failed = False
+        self.cleanup_failed = False
         self.run_starttime = 0
         self.run_endtime = 0
         for run_item in self.run_items:
@@ -211,6 +213,9 @@ class ScenarioContainer(TagAndStatusStatement, Replayable):
 
         :return: Computed status (as string-enum).
         """
+        if self.cleanup_failed:
+            # -- CLEANUP-ERROR: Is not derivable from the run-items.
+            return Status.error
         if self.hook_failed:
             return Status.hook_error
 
@@ -352,7 +357,7 @@ class ScenarioContainer(TagAndStatusStatement, Replayable):
         self.skip_reason = reason
         for run_item in self.run_items:
             run_item.skip(reason, require_not_executed)
-        if not self.run_items:
+        if not self.run_items and not self.cleanup_failed:
             # -- SPECIAL CASE: Feature without scenarios
             self.set_status(Status.skipped)
         assert self.status.is_final() #< skipped, failed or passed.
@@ -377,6 +382,7 @@ class ScenarioContainer(TagAndStatusStatement, Replayable):
         # MAYBE: self.reset()
         self.clear_status()
         self.hook_failed = False
+        self.cleanup_failed = False
         self.run_starttime = time.time()
 
         entity_name = self.type # VALUE: "feature" or "rule"
@@ -452,6 +458,7 @@ class ScenarioContainer(TagAndStatusStatement, Replayable):
         except Exception:               # pylint: disable=broad-except
             # -- CLEANUP-ERROR:
             # WAS: self.set_status(Status.failed)
+            self.cleanup_failed = True
             self.set_status(Status.error)
             failed_count += 1
 
@@ -957,6 +964,7 @@ class Scenario(TagAndStatusStatement, Replayable):
         self.background = background
         self.feature = None  # REFER-TO: owner=Feature
         self.hook_failed = False
+        self.cleanup_failed = False
         self._background_steps = background_steps
         self._use_background = True
         self._row = None
@@ -968,6 +976,7 @@ class Scenario(TagAndStatusStatement, Replayable):
         """
         super(Scenario, self).reset()
         self.hook_failed = False
+        self.cleanup_failed = False
         self._row = None
         self.was_dry_run = False
         for step in self.all_steps:
@@ -1039,6 +1048,9 @@ class Scenario(TagAndStatusStatement, Replayable):
 
         :return: Computed status (as enum value).
         """
+        if self.cleanup_failed:
+            # -- CLEANUP-ERROR: Is not derivable from the steps.
+            return Status.error
         if self.hook_failed:
             return Status.hook_error
 
@@ -1136,7 +1148,7 @@ class Scenario(TagAndStatusStatement, Replayable):
                     "REQUIRE NOT-EXECUTED, but step is %s" % step.status
 
         scenario_without_steps = not self.steps and not self.background_steps
-        if scenario_without_steps:
+        if scenario_without_steps and not self.cleanup_failed:
             self.set_status(Status.skipped)
         assert self.status.is_final()  #< skipped, failed or passed
 
@@ -1145,6 +1157,7 @@ class Scenario(TagAndStatusStatement, Replayable):
         self.clear_status()
         self.captured.reset()
         self.hook_failed = False
+        self.cleanup_failed = False
         failed = False
         skip_scenario_untested = runner.aborted
         run_scenario = self.should_run(runner.config)
@@ -1255,6 +1268,7 @@ class Scenario(TagAndStatusStatement, Replayable):
         try:
             runner.context._pop()       # pylint: disable=protected-access
         except Exception:               # pylint: disable=broad-except
+            self.cleanup_failed = True
             self.set_status(Status.error)
             failed = True
 
